@@ -163,7 +163,7 @@ def gen_patterns(w, rng, n_total, every_exponent=True):
     pats = []
     bm = boundary_mantissas(w)
     exps = range(1 << e) if every_exponent else [0, 1, 2, (1 << (e - 1)) - 2, (1 << (e - 1)) - 1, 1 << (e - 1), (1 << e) - 3, (1 << e) - 2, (1 << e) - 1]
-    mant = bm if w == 32 else bm[:: 1]
+    mant = bm
     for ex in exps:
         # all boundary mantissas at the interesting exponents, a thinner set elsewhere
         special = ex in (0, 1, 2, (1 << (e - 1)) - 2, (1 << (e - 1)) - 1, 1 << (e - 1), (1 << e) - 3, (1 << e) - 2, (1 << e) - 1)
@@ -190,6 +190,8 @@ def gen_patterns(w, rng, n_total, every_exponent=True):
 
 
 def chunks(lst, k):
+    if not lst:
+        return []
     k = max(1, min(k, len(lst)))
     sz = (len(lst) + k - 1) // k
     return [lst[i:i + sz] for i in range(0, len(lst), sz)]
@@ -201,10 +203,6 @@ def pmap(fn, items):
 
 
 # ---------------------------------------------------------------- the check
-class Ctx:
-    pass
-
-
 def harness_lines(exe, mode, lines, timeout=3000):
     """run 'U mode' + lines; returns (U return value, output lines aligned with `lines` (None where missing), stderr)"""
     text = "U %d\n" % mode + "\n".join(lines) + "\n"
@@ -285,6 +283,8 @@ def run(rep, tier, seed, replay=None):
                            "all five sub-checks of check_C_ieee754_compliance pass (K %s) but the check returns %d; bufr_use_C_ieee754(1) returns %d, "
                            "C_use_ieee754 after bufr_begin_api() is %d: the native layout is never used" % (" ".join(map(str, sub)), comp, u1, b_use),
                            sel_case, 1)
+    if comp == 0 and (u1 == 1 or b_use == 1 or u1b == 1):
+        violation("check_C_ieee754_compliance() returned 0 but the native layout was enabled (bufr_use_C_ieee754(1) = %d, after bufr_begin_api %d)" % (u1, b_use), sel_case, 1)
     if u0 != 0:
         violation("bufr_use_C_ieee754(0) returned %d" % u0, "U 0", 0)
     if native_available and nan_through != "7fa00001":
@@ -407,10 +407,7 @@ def run(rep, tier, seed, replay=None):
                 modv = mod if mod in ("nan", "ERR", "<no output>") else int(mod, 16)
             except ValueError:
                 modv = mod
-            if kind == "e" and is_nan_pat(w, p) and not native:
-                same = (lib == modv)          # the software path returns the canonical quiet NaN, the model too
-            else:
-                same = (lib == modv)
+            same = (lib == modv)      # NaN inputs too: the software path returns the canonical quiet NaN, the native path the image
             ncorr += 1
             if ncorr % 40009 == 1:
                 rep.sample({"case": line, "mode": mode, "path": path, "impl": r, "model": mod})
